@@ -91,6 +91,11 @@ class SimFile(object):
         k = fs.read_events
         fs.read_events += 1
         if fs.fail_reads and k in fs.fail_reads:
+            if getattr(fs, 'fail_with_interrupt', False):
+                # the caller is interrupted while the library is inside a read (Ctrl-C): a BaseException
+                fs.faults_fired['interrupt'] = fs.faults_fired.get('interrupt', 0) + 1
+                self._ev('interrupt', self._pos, 0, 0)
+                raise KeyboardInterrupt('injected at read event %d' % k)
             fs.faults_fired['eio'] = fs.faults_fired.get('eio', 0) + 1
             self._ev('eio', self._pos, 0, 0)
             raise OSError(errno.EIO, 'injected I/O error (read event %d)' % k)
